@@ -53,6 +53,16 @@ CHECKS = {
                 note="programs beyond the size/nesting bound and SDK usages outside the grammar are not covered; quantum hooks of the "
                      "controller are harness code (exact state vector); one open known finding (ret_reg of a never-written register)",
                 ref="3/C05"),
+    "C06": dict(cat="exploration", tech="bounded-exhaustive enumeration of compile/instantiate/commit vs flush histories x template values x outcome scripts on the real SDK and controller, differential oracle",
+                text="Every history of 1..2 (thorough 3) segments over seven segment bodies with template operands in rotation numerators "
+                     "(one and two templates, denominators 0/1/4, measurement into a new future, a register, an existing array slot, "
+                     "rotation of a persistent qubit), each closed by flush() or by compile() -> instantiate() -> commit_subroutine() "
+                     "(at least one pre-compiled), followed by the closing flush, for template values {0,1,8,16,31,255}, with and "
+                     "without the NV transpiler and for every measurement-outcome script, is executed on the real pipeline and must "
+                     "give exactly the observations (gate trace with angles, controller arrays, host handle values, builder "
+                     "bookkeeping) of the same history written with literals and plain flushes, after every segment and after close.",
+                note="NV transpiler in simulation mode; usage as in examples/sdk_scripts/rsp.py",
+                ref="3/C06"),
     "C07": dict(cat="exploration", tech="exhaustive enumeration of gates x placements x all 65536 angle operands through the real transpiler; exact matrix comparison with independent operator semantics",
                 text="Every accepted vanilla gate is run through the real NVSubroutineTranspiler for every qubit placement "
                      "(electron id 0, carbons 1..3; all 12 ordered pairs for CNOT/CPHASE; MOV in both directions), every rotation "
